@@ -26,7 +26,8 @@ CONFIG = {
 }
 
 MOUNTS = [["x"], ["ascmhl"], ["ASCMHL"], [".DS_Store"], ["my data"], ["ünï"], ["ascmhl", "inner"], ["a", "ascmhl", "b"],
-          ["PATTERN"], ["PATTERN", "deep"], ["x.bak"], ["cache"], ["tmp_mount"]]
+          ["PATTERN"], ["PATTERN", "deep"], ["x.bak"], ["cache"], ["tmp_mount"], ["Reel [A01]"], ["x[1]", "y"], ["a*b"],
+          ["q?"], ["{c}"], ["100%"], ["~"], ["$HOME"], ["back\\slash"]]
 SPELLINGS = ["abs", "abs_slash", "rel", "dot_rel", "dot"]
 PATTERNS = ["*.bak", "tmp*", "cache/", "notes", "cache", "sub", "*.xml"]
 
@@ -76,6 +77,8 @@ def _mount_class(mount, pats):
         return "default-pattern-ancestor"
     if any(spec.match_file(m) or spec.match_file(m + "/") for m in mount):
         return "user-pattern-ancestor"
+    if any(c in m for m in mount for c in "[]*?{}"):
+        return "glob-special-name"
     if any(" " in m or any(ord(c) > 127 for c in m) for m in mount):
         return "hostile-name"
     return "plain"
@@ -135,7 +138,7 @@ def execute(sc, ctx):
     # relocated copy verifies
     for src in (wa, wb):
         dst_parent = ctx.subdir()
-        dst = os.path.join(dst_parent, "w", "relocated here", src.spec["rootname"])
+        dst = os.path.join(dst_parent, "w", "relocated [copy] here" if src is wb else "relocated here", src.spec["rootname"])
         os.makedirs(os.path.dirname(dst))
         core.copy_world_tree(src.root, dst)
         wc = core.World.__new__(core.World)
